@@ -1194,6 +1194,15 @@ class TLSConnection(TLSRecordLayer):
                     AlertDescription.insufficient_security,
                     "Negotiation of Extended master Secret failed"):
                 yield result
+        for ext_type in (ExtensionType.encrypt_then_mac,
+                         ExtensionType.extended_master_secret,
+                         ExtensionType.record_size_limit):
+            if serverHello.getExtension(ext_type) and \
+                    not clientHello.getExtension(ext_type):
+                for result in self._sendError(
+                        AlertDescription.unsupported_extension,
+                        "Server sent extension we did not advertise"):
+                    yield result
         alpnExt = serverHello.getExtension(ExtensionType.alpn)
         if alpnExt:
             if not alpnExt.protocol_names or \
